@@ -98,7 +98,7 @@ fn build(seed: u64, i: usize) -> Built {
     let mut shapes: Vec<&'static str> = Vec::new();
 
     let n = 2 + r.usize(6);
-    let dirs_pool = ["", "", "lib", "sub", "sub/deep"];
+    let dirs_pool = ["", "", "lib", "sub", "sub/deep", "lib2"];
     let mut nodes: Vec<Node> = (0..n)
         .map(|k| Node { dir: if k == 0 { String::new() } else { r.pick(&dirs_pool).to_string() }, name: format!("f{k}.circom"), defs: vec![], includes: vec![], bad_includes: vec![] })
         .collect();
@@ -215,6 +215,18 @@ fn build(seed: u64, i: usize) -> Built {
         libs.push(r.pick(&["lib", "lib/", "./lib", "sub/../lib", "lib/../lib", "@ROOT@/lib"]).to_string());
         shapes.push("library-dir");
     }
+    // a second library directory (cycles and diamonds may then span two libraries)
+    let lib2_given = nodes.iter().any(|x| x.dir == "lib2") && r.chance(3, 4);
+    if lib2_given {
+        let l2 = r.pick(&["lib2", "./lib2", "lib2/"]).to_string();
+        if r.chance(1, 2) {
+            libs.insert(0, l2);
+        } else {
+            libs.push(l2);
+        }
+        shapes.push("second-library-dir");
+    }
+    let given_lib_dirs: Vec<&str> = [("lib", lib_dir_given), ("lib2", lib2_given)].iter().filter(|x| x.1).map(|x| x.0).collect();
     let mut lib_file: Option<usize> = None;
     if r.chance(1, 5) {
         let k = 1 + r.usize(n - 1);
@@ -229,6 +241,7 @@ fn build(seed: u64, i: usize) -> Built {
     };
     let dir_refs: Vec<&str> = all_dirs.iter().map(|s| s.as_str()).collect();
     // spellings
+    let mut via_library: Vec<(String, String)> = Vec::new();
     let mut link_count = 0;
     for (a, b) in edges.clone() {
         let from_dir = nodes[a].dir.clone();
@@ -238,9 +251,17 @@ fn build(seed: u64, i: usize) -> Built {
         let local_clash = nodes.iter().any(|x| x.dir == from_dir && x.name == nodes[b].name && x.path() != to);
         let spelling = if force_bare.contains(&(a, b)) {
             nodes[b].name.clone()
-        } else if lib_dir_given && nodes[b].dir == "lib" && from_dir != "lib" && choice < 4 && !local_clash {
+        } else if given_lib_dirs.contains(&nodes[b].dir.as_str())
+            && from_dir != nodes[b].dir
+            && choice < 4
+            && !local_clash
+            // with two libraries the first one that has the name wins: only use the bare
+            // name if no other given library holds a file of that name
+            && !nodes.iter().any(|x| x.name == nodes[b].name && x.dir != nodes[b].dir && given_lib_dirs.contains(&x.dir.as_str()))
+        {
             // through the library directory: bare name, no local file of that name
             shapes.push("via-library-dir");
+            via_library.push((from_dir.clone(), nodes[b].name.clone()));
             nodes[b].name.clone()
         } else if lib_file == Some(b) && nodes[b].dir != from_dir && choice < 6 && !local_clash {
             shapes.push("via-library-file");
@@ -318,6 +339,16 @@ fn build(seed: u64, i: usize) -> Built {
         }
     }
     let mut plan = quiet_plan(&mut r_plan);
+    // the local candidate of an include that is meant for a library may fail with
+    // something other than ENOENT (a symlink loop, an unsearchable directory, a plain
+    // file in the way): the library lookup must still happen
+    if !via_library.is_empty() && r_plan.chance(1, 3) {
+        let (from_dir, name) = via_library[r_plan.usize(via_library.len())].clone();
+        let errno = *r_plan.pick(&[libc::ELOOP, libc::EACCES, libc::ENOTDIR, libc::ENAMETOOLONG]);
+        let suffix = if from_dir.is_empty() { format!("/r/{name}") } else { format!("/r/{from_dir}/{name}") };
+        plan.faults.push(Fault { call: "realpath".into(), errno, occurrence: 0, suffix });
+        shapes.push("local-candidate-fails-with-other-errno");
+    }
     if argv_inputs == ["."] {
         plan.dirseed = r_plan.next_u64() | 1;
     }
